@@ -97,6 +97,8 @@ def install(ns, prop, level, oracles, bounds, assumptions, extra_tasks=None, ext
 ALPHABETS = {
     'sigma_readd': lambda m: ops.sigma_readd(m, 'quick'),
     'sigma_readd_big': lambda m: ops.sigma_readd(m, 'thorough'),
+    'sigma_readd_q': lambda m: ops.sigma_readd_q(m, 'quick'),
+    'sigma_ce_reopen': lambda m: ops.sigma_ce_reopen(m, 'quick'),
     'sigma_ce': lambda m: ops.sigma_ce(m, 'quick'),
     'sigma_ce_big': lambda m: ops.sigma_ce(m, 'thorough'),
 }
